@@ -319,7 +319,7 @@ class Parser:
             self.statement = None
 
     def parse_statement(self) -> None:
-        _parse_result = yacc.parse(self.statement)
+        _parse_result = self.yacc.parse(self.statement, lexer=self.lexer)
         if _parse_result:
             self.tables.append(_parse_result)
 
